@@ -2,8 +2,6 @@
 //!
 //! Read the `windows` module for reference.
 
-#[cfg(naijascript_verif)]
-use crate::sys::verif_shim::fake_libc as libc;
 use std::ffi::c_int;
 use std::io::{self, Write};
 use std::ptr::{self, NonNull, null_mut};
@@ -16,6 +14,8 @@ use crate::arena::{Arena, ArenaString};
 use crate::helpers::KIBI;
 use crate::process::{ProcessCaps, ProcessError, ProcessResult, ProcessSpec};
 use crate::runtime::Value;
+#[cfg(naijascript_verif)]
+use crate::sys::verif_shim::fake_libc as libc;
 
 #[cfg(target_os = "netbsd")]
 const fn desired_mprotect(flags: c_int) -> c_int {
